@@ -17,7 +17,7 @@ func New() core.Prop { return lc.New(flavor{}) }
 
 func (flavor) ID() string { return "C03" }
 
-func (flavor) Profile() lc.Profile { return lc.Profile{Validate: 14, Stop: 10, Logs: 45} }
+func (flavor) Profile() lc.Profile { return lc.Profile{Validate: 14, Stop: 10, Logs: 45, Deps: 120} }
 
 func (flavor) Impl(ops []lc.Op, obs []lc.StepObs) string {
 	parts := make([]string, len(obs))
